@@ -137,6 +137,8 @@ LET_READER_LABELS = {}
 def corpus_shape(dl, src):
     if src in LET_READER_LABELS:
         lab = LET_READER_LABELS[src]
+        if lab.startswith("loops "):
+            return dl + " :: " + lab.replace("loops ", "loops[", 1) + "]"
         return dl + (" :: " + lab.replace("setops ", "setops[", 1) + "]" if lab.startswith("setops ") else " :: letreaders[" + lab + "]")
     return dl + " :: corpus[" + " ".join(t for t in ("join:", "append:", "group1(", "take ", "sort{", "window:") if re.search(r"\b" + re.escape(t.strip(":({ ")) + r"\b", src)) + "]:" + re.sub(r"\s+", " ", src)[:60]
 
@@ -240,13 +242,18 @@ def loop_programs():
                 if bi and sn not in ("literal", "table"):
                     continue
                 lp = "%s | loop (%s)" % (st, body)
-                out.append(lp + tl)                                                     # in the main pipeline
+                lab = "loops start:%s body:%d tail:%s place:" % (sn, bi, tn)
+
+                def add(place, src):
+                    out.append(src)
+                    LET_READER_LABELS[src] = lab + place
+                add("main", lp + tl)                                                     # in the main pipeline
                 if bi == 0:
-                    out.append("let l = (%s)\nfrom l%s" % (lp, tl))                     # bound by let, then read
+                    add("let", "let l = (%s)\nfrom l%s" % (lp, tl))                     # bound by let, then read
                     if tn in ("none", "take_filter", "select", "join"):
-                        out.append("let l = (%s%s)\nfrom t1 | join l (t1.id == l.%s) | take 3 | filter t1.id > 0" % (lp, tl if tn != "join" else "", "m" if tn == "select" else "n"))
-                        out.append("from t2 | select {n = id} | append (%s) | take 4 | filter n > 0" % (lp.replace("\n", " ") + (tl if tn == "take_filter" else "")))
-                        out.append("let l = (%s)\nfrom l | join m = l (==n)%s" % (lp, "" if tn == "none" else " | take 3 | filter l.n > 0"))
+                        add("let_joined", "let l = (%s%s)\nfrom t1 | join l (t1.id == l.%s) | take 3 | filter t1.id > 0" % (lp, tl if tn != "join" else "", "m" if tn == "select" else "n"))
+                        add("appended", "from t2 | select {n = id} | append (%s) | take 4 | filter n > 0" % (lp.replace("\n", " ") + (tl if tn == "take_filter" else "")))
+                        add("let_self_join", "let l = (%s)\nfrom l | join m = l (==n)%s" % (lp, "" if tn == "none" else " | take 3 | filter l.n > 0"))
     # two loops in one statement
     out.append("let a = (from [{n = 1}] | loop (filter n < 3 | select {n = n + 1}))\nlet b = (from [{n = 5}] | loop (filter n < 7 | select {n = n + 1}))\nfrom a | join b (a.n < b.n) | take 5 | filter a.n > 0")
     out.append("from [{n = 1}] | loop (filter n < 3 | select {n = n + 1}) | take 5 | loop (filter n < 6 | select {n = n + 2}) | take 4 | filter n > 1")
